@@ -66,7 +66,7 @@ def build(cell, seed):
     with torch.no_grad():
         for _, p in sorted(k.named_parameters()):
             p.copy_(0.5 * util.randn(g, *p.shape) if p.dim() else 0.5 * util.randn(g, 1)[0])
-    n1, n2 = 3, 2
+    n1, n2 = (2, 3) if cell.get("orient") == "wide" else (3, 2)
     x1 = util.randn(g, *cell["x1b"], n1, D)
     x2 = util.randn(g, *cell["x2b"], n2, D)
     return k, x1, x2
@@ -91,9 +91,14 @@ def cells(tier, seed):
         if tier == "quick" and (ad == [0] or kern in ("periodic", "rq", "prod", "rbfgrad_ard") or (ad is not None and kern != "rbf")
                                 or (len(B) > 1 and kern != "rbf")):
             continue
-        nrow = 3 * (2 if kern == "multitask" else (1 + (D if ad is None else len(ad))) if kern in ("rbfgrad", "rbfgrad_ard") else 1)
-        for ri in range(len(alpha(nrow, tier))):
+        per_point = 2 if kern == "multitask" else (1 + (D if ad is None else len(ad))) if kern in ("rbfgrad", "rbfgrad_ard") else 1
+        for ri in range(len(alpha(3 * per_point, tier))):
             out.append(dict(base, what="index", row=ri, tier=tier))
+        # the other orientation (fewer rows than columns: n1 = 2 < n2 = 3), where a row/column mix-up in the slice arithmetic is not
+        # hidden by clipping; quick: non-batched kernels without active_dims
+        if len(B) == 0 and (tier == "thorough" or ad is None):
+            for ri in range(len(alpha(2 * per_point, tier))):
+                out.append(dict(base, what="index", row=ri, tier=tier, orient="wide"))
     return out
 
 
@@ -261,7 +266,7 @@ def indexing(cell, k, x1, x2, dense, fails, feats):
                 if ref.numel() == 0:
                     continue
                 n += 1
-                states.append(util.digest([cell["kernel"], cell["kb"], cell["x1b"], cell["x2b"], str(idx)]))
+                states.append(util.digest([cell["kernel"], cell["kb"], cell["x1b"], cell["x2b"], cell.get("orient"), str(idx)]))
                 kinds = f"{row[0]}/{col[0]}"
                 f2 = dict(feats, idx_kinds=kinds, neg_int=(row[0] == "int" and row[1] < 0) or (col[0] == "int" and col[1] < 0),
                           batch_idx="".join("T" if torch.is_tensor(b) else "i" if isinstance(b, int) else "s" for b in bi))
